@@ -652,7 +652,7 @@ def run(tier, seed):
     tm['obligations'] = time.time() - t0; t0 = time.time()
     r = chk.rng
     nscn = 160 if tier == 'quick' else 1500
-    tasks = [c20_gen.f12_scenario()] + [c20_gen.gen_scenario(r) for _ in range(nscn)]
+    tasks = [c20_gen.f12_scenario()] + [c20_gen.gen_history_scenario(r) if k % 8 == 7 else c20_gen.gen_scenario(r) for k in range(nscn)]
     pm = PrivateModel()
     T = Tables()
     nn = core.run_impl([{'op': 'newnb'}], script='c20_runner.py')[0]
